@@ -542,6 +542,15 @@ def check_top(ck, tier, part):
                     a = gen_args(rng, d)
                     runs.append((Run(w, a, rng, 'effects:random'), None))
                 if d:
+                    # an output directory that already holds files under the names --json is going to use (a second run over the same logs): they are
+                    # written again in place, nothing else appears
+                    w3 = dict(w)
+                    w3['out'] = [('keep.txt', b'kept')] + [('%s.0x%08X.json' % (n_, p_['ph']['eid']), b'{"stale": 1}') for n_, p_ in d[:3]] + \
+                                [('%s.%08X.json' % (n_, p_['ph']['eid']), b'{"stale": 2}') for n_, p_ in d[:3]]
+                    a = mainrun.blank_args()
+                    a['path'], a['json'], a['outputDir'], a['every'] = '@P', True, '@O', True
+                    runs.append((Run(w3, a, rng, 'effects:json-over-existing-outputs'), None))
+                if d:
                     # two top-level files (and one in a subdirectory) whose names contain the id: -d removes ONE of them
                     w2 = dict(w)
                     w2['files'] = w['files'] + [(n, b'second candidate') for n in ('dup_%s.pel' % pid, '%s' % pid) if n not in dict(w['files'])]
